@@ -101,9 +101,15 @@ def offenders_of(ctx, tag, lang, outcome):
 
 
 def object_text(outcome, pkg, name):
-    # the object ends with `<type>) "pkg" "name"))`; a self reference `(TRef A0 "pkg" "name")` is not preceded by `) `
-    # (the SelfRef printed at the end may differ from the object's package/name)
-    m = re.search(r'\("%s", \(mkObject "%s".*?\) "[^"]*" "[^"]*"\)\)' % (re.escape(name), re.escape(name)), outcome)
+    """the printed object `name` of package `pkg` (objects of the same name exist in several packages; the SelfRef
+    printed at the end of an object may differ from its package/name; a self reference `(TRef A0 "p" "n")` is
+    not preceded by `) `)"""
+    k = outcome.find('(mkSchema "%s" ' % pkg)
+    if k < 0:
+        return ""
+    e = outcome.find('(mkSchema "', k + 1)
+    block = outcome[k:e if e > 0 else len(outcome)]
+    m = re.search(r'\("%s", \(mkObject "%s".*?\) "[^"]*" "[^"]*"\)\)' % (re.escape(name), re.escape(name)), block)
     return m.group(0) if m else ""
 
 
